@@ -3,6 +3,7 @@ package c20
 import (
 	"reflect"
 	"strconv"
+	"strings"
 
 	"github.com/dadrus/heimdall/internal/config"
 )
@@ -41,8 +42,19 @@ func valuesFor(t reflect.Type, path []string) (kind string, vals [2]string, ok b
 		case "span_processor":
 			return KString, [2]string{"simple", "batch"}, true
 		case "type":
-			if path[0] == "cache" {
+			// first value: valid in a file next to the ballast of leafBallast; second: only ever
+			// given by the environment
+			switch {
+			case path[0] == "cache":
 				return KString, [2]string{"noop", "in-memory"}, true
+			case path[1] == "authorizers":
+				return KString, [2]string{"allow", "deny"}, true
+			case path[1] == "contextualizers":
+				return KString, [2]string{"generic", "generic-b"}, true
+			case path[1] == "finalizers":
+				return KString, [2]string{"noop", "header"}, true
+			case path[1] == "error_handlers":
+				return KString, [2]string{"default", "redirect"}, true
 			}
 
 			return KString, [2]string{"anonymous", "unauthorized"}, true
@@ -60,6 +72,59 @@ func valuesFor(t reflect.Type, path []string) (kind string, vals [2]string, ok b
 	}
 
 	return "", vals, false
+}
+
+// UndocumentedPrefixes are parts of the structure that are no configuration properties: ServiceConfig
+// is shared by the three services, but the documentation (docs/content/docs/services/*.adoc) and
+// the schema list cors and connections_limit for some of them only and respond not for the
+// management service; a condition on a catalogue entry is documented for error handlers only.
+//
+//nolint:gochecknoglobals
+var UndocumentedPrefixes = []string{
+	"serve.decision.cors.", "serve.decision.connections_limit.", "serve.management.connections_limit.",
+	"serve.management.respond.", "mechanisms.authenticators.0.if", "mechanisms.authorizers.0.if",
+	"mechanisms.contextualizers.0.if", "mechanisms.finalizers.0.if",
+}
+
+// Documented reports whether the leaf is a documented configuration property.
+func Documented(path []string) bool {
+	p := strings.Join(path, ".")
+
+	for _, u := range UndocumentedPrefixes {
+		if strings.HasPrefix(p, u) {
+			return false
+		}
+	}
+
+	return true
+}
+
+// leafBallast is what a file needs around a single leaf to be a valid file: required siblings.
+func leafBallast(path []string) []Ballast {
+	p := strings.Join(path, ".")
+
+	var out []Ballast
+
+	if path[0] == "mechanisms" {
+		elem := strings.Join(path[:3], ".")
+
+		switch path[1] {
+		case "contextualizers":
+			out = append(out,
+				Ballast{Path: elem + ".id", Text: "ballast-id"}, Ballast{Path: elem + ".type", Text: "generic"},
+				Ballast{Path: elem + ".config", Text: "{endpoint: {url: \"http://cx.local/ctx\"}}"})
+		case "error_handlers":
+			out = append(out, Ballast{Path: elem + ".id", Text: "ballast-id"}, Ballast{Path: elem + ".type", Text: "default"})
+		}
+
+		out = append(out, mechanismBallast...)
+	}
+
+	if strings.HasSuffix(p, ".key_store.password") {
+		out = append(out, Ballast{Path: strings.TrimSuffix(p, "password") + "path", Text: "/keys/ballast.pem"})
+	}
+
+	return out
 }
 
 // StructLeaves enumerates every scalar leaf of the configuration structure: nested structures,
@@ -129,10 +194,8 @@ func LeafCase(sl StructLeaf, src, id string) (*MergeCase, error) {
 		mc.Order = []int{1}
 	}
 
-	if sl.Path[0] == "mechanisms" {
-		for _, bl := range mechanismBallast {
-			mc.Ballast = append(mc.Ballast, BallastRec{Path: splitPath(bl.Path), Text: bl.Text})
-		}
+	for _, bl := range leafBallast(sl.Path) {
+		mc.Ballast = append(mc.Ballast, BallastRec{Path: splitPath(bl.Path), Text: bl.Text})
 	}
 
 	return mc, nil
